@@ -39,8 +39,14 @@ SEQARGS = {"hamsim": [3.0, 0.1], "invert": [3.0, 0.3], "gibbs": [8, 2.0], "efilt
 UNKNOWN = ["polytoangles", "Invert", "hamsim2", "", "phases"]
 
 
-def fmt_list(vals, bracket):
-    toks = [repr(float(v)) if not float(v).is_integer() else str(int(v)) for v in vals]
+def fmt_list(vals, bracket, style=0):
+    """style 0: shortest repr; 1: C exponent notation (5.0e-01); 2: numpy-like (trailing dot, signed exponents)"""
+    if style == 1:
+        toks = ["%.6e" % float(v) for v in vals]
+    elif style == 2:
+        toks = [("%d." % v) if float(v).is_integer() else "%.3e" % float(v) for v in vals]
+    else:
+        toks = [repr(float(v)) if not float(v).is_integer() else str(int(v)) for v in vals]
     return "[" + " ".join(toks) + "]" if bracket else ",".join(toks)
 
 
@@ -73,21 +79,22 @@ def run(ctx):
             for rep in range(2 if quick else 6):
                 mode = "--return-angles" if rep % 2 == 0 else "--output-json"
                 bracket = rng.random() < 0.5
+                style = rng.choice([0, 0, 1, 2])
                 so = rng.choice(["Wx", "Wx", "Wz"]) if cmd not in ("invert", "fpsearch", "angles") else "Wx"
                 tol = rng.choice([1e-3, 1e-4, 1e-5, 1e-6])
                 al = [mode, "--signal_operator=" + so, "--tolerance=%r" % tol]
                 if cmd == "poly2angles":
                     poly = rng.choice([[-1, 0, 2], [0, -3, 0, 4], [0, 0.5, 0, 0.2], [0.3, 0, -0.6, 0, 0.2], [0, 0.4]])
-                    al += ["--poly=" + fmt_list(poly, bracket)]
+                    al += ["--poly=" + fmt_list(poly, bracket, style)]
                     exp_args = poly
                 elif cmd == "poly":
-                    al += ["--polyname", "poly_sign", "--polyargs=" + fmt_list([7, 2.0], bracket)]
+                    al += ["--polyname", "poly_sign", "--polyargs=" + fmt_list([7, 2.0], bracket, style)]
                     exp_args = [7, 2.0]
                 elif cmd == "angles":
-                    al += ["--seqname", "fpsearch", "--seqargs=" + fmt_list([5, 0.5], bracket)]
+                    al += ["--seqname", "fpsearch", "--seqargs=" + fmt_list([5, 0.5], bracket, style)]
                     exp_args = [5, 0.5]
                 else:
-                    al += ["--seqargs=" + fmt_list(SEQARGS[cmd], bracket)]
+                    al += ["--seqargs=" + fmt_list(SEQARGS[cmd], bracket, style)]
                     exp_args = SEQARGS[cmd]
                 al.append(cmd)
                 cases.append({"fn": "cli", "arglist": al, "cmd": cmd, "mode": mode, "bracket": bracket, "so": so, "tol": tol, "exp_args": exp_args,
@@ -98,8 +105,15 @@ def run(ctx):
         # the two list syntaxes hand over the same numbers (zeros included)
         for poly in ([-1, 0, 2], [0, 0.5, 0, 0.2], [0, 0, 0, 1]):
             for bracket in (False, True):
-                cases.append({"fn": "cli", "arglist": ["--return-angles", "--tolerance=1e-05", "--poly=" + fmt_list(poly, bracket), "poly2angles"], "cmd": "poly2angles",
-                              "mode": "--return-angles", "bracket": bracket, "so": "Wx", "tol": 1e-5, "exp_args": poly, "npseed": 7, "timeout": 300, "pair": str(poly)})
+                for style in (0, 1, 2):
+                    cases.append({"fn": "cli", "arglist": ["--return-angles", "--tolerance=1e-05", "--poly=" + fmt_list(poly, bracket, style), "poly2angles"], "cmd": "poly2angles",
+                                  "mode": "--return-angles", "bracket": bracket, "so": "Wx", "tol": 1e-5, "exp_args": poly, "npseed": 7, "timeout": 300, "pair": str(poly)})
+        for bracket in (False, True):
+            for style in (1, 2):
+                cases.append({"fn": "cli", "arglist": ["--return-angles", "--seqargs=" + fmt_list([10, 0.5], bracket, style), "fpsearch"], "cmd": "fpsearch",
+                              "mode": "--return-angles", "bracket": bracket, "so": "Wx", "tol": 0.1, "exp_args": [10, 0.5], "npseed": 3, "timeout": 300})
+                cases.append({"fn": "cli", "arglist": ["--return-angles", "--tolerance=1e-05", "--seqargs=" + fmt_list([5, 0.05], bracket, style), "hamsim"], "cmd": "hamsim",
+                              "mode": "--return-angles", "bracket": bracket, "so": "Wx", "tol": 1e-5, "exp_args": [5, 0.05], "npseed": 3, "timeout": 300})
     impl = run_impl(cases, timeout=3000)
     lines, keep = [], []
     pairs = {}
@@ -169,8 +183,8 @@ def run(ctx):
             lines.append("(c01 %s %s %s %s %s)" % (Q.qlist(got), Q.qlist(q[-1]["poly"]), qs(fr(1e-4)), qs(fr(1 - 1e-4)), qs(fr(c["tol"]))))
             keep.append(c)
     for k, v in pairs.items():
-        if len(v) == 2 and v[0] != v[1]:
-            ctx.fail("cli", {"poly": k}, "the comma form and the bracketed form of --poly=%s hand different coefficients to the phase finder: %s vs %s" % (k, v[0], v[1]))
+        if len(v) >= 2 and any(x != v[0] for x in v):
+            ctx.fail("cli", {"poly": k}, "the comma form and the bracketed form of --poly=%s hand different coefficients to the phase finder: %s" % (k, v))
     mod = run_model(lines)
     for c, m in zip(keep, mod):
         if isinstance(m, str):
